@@ -26,6 +26,30 @@ impl std::io::Read for PieceReader {
     }
 }
 
+/// a writer that may take only part of what it is offered, or ask to be called again
+/// (`ErrorKind::Interrupted`), as pipes, TLS streams and interrupted `send` calls do
+pub struct Choppy {
+    pub out: Vec<u8>,
+    pub max: usize,
+    pub interrupt_every: usize,
+    pub calls: usize,
+}
+
+impl std::io::Write for Choppy {
+    fn write(&mut self, b: &[u8]) -> std::io::Result<usize> {
+        self.calls += 1;
+        if self.interrupt_every > 0 && self.calls % self.interrupt_every == 0 {
+            return Err(std::io::ErrorKind::Interrupted.into());
+        }
+        let n = b.len().min(self.max);
+        self.out.extend_from_slice(&b[..n]);
+        Ok(n)
+    }
+    fn flush(&mut self) -> std::io::Result<()> {
+        Ok(())
+    }
+}
+
 fn hdr(name: &str, value: &str) -> Header {
     Header::from_bytes(name.as_bytes(), value.as_bytes()).expect("generator produces ASCII headers")
 }
@@ -167,10 +191,11 @@ pub fn run_case(case: &RespCase) -> RespOut {
         Some(v) => vec![hdr("Host", "x"), hdr("TE", v)],
         None => vec![hdr("Host", "x")],
     };
-    let mut out: Vec<u8> = Vec::with_capacity(case.body_len + 512);
+    let mut w = Choppy { out: Vec::with_capacity(case.body_len + 512), max: [usize::MAX, 1, 7, 1000, 13, 13][case.wmode as usize % 6], interrupt_every: [0, 0, 0, 0, 3, 2][case.wmode as usize % 6], calls: 0 };
     let t_before = now_unix();
-    let r = vcore::panics::catch(|| resp.raw_print(&mut out, HTTPVersion(case.version.0, case.version.1), &req_headers, case.head, case.upgrade.as_deref()));
+    let r = vcore::panics::catch(|| resp.raw_print(&mut w, HTTPVersion(case.version.0, case.version.1), &req_headers, case.head, case.upgrade.as_deref()));
     let t_after = now_unix();
+    let out = w.out;
     let print_err = match r {
         Ok(r) => r.err().map(|e| e.to_string()),
         Err(p) => Some(format!("PANIC {} at {}", p.message, p.location)),
